@@ -68,6 +68,10 @@ def run_set(seed, wild=False, gen_texts=True, n_modules=None, size=None, backend
     texts = {n: mibgen.print_module(m, rng, wild=wild) for n, m in g.modules.items()}
     obs = {'seed': seed, 'gen': g, 'texts': texts, 'status': {}, 'json': {}, 'pysnmp': {}, 'symlog': [], 'symmap': None,
            'summary': {}}
+    # how to draw this set again (replays regenerate the set and its ground truth from the seed: text and truth always
+    # belong together, whatever has happened to the generator since the input was recorded)
+    obs['run_set'] = None if (mutate or text_filter) else dict(wild=wild, gen_texts=gen_texts, n_modules=n_modules, size=size, backends=list(backends),
+                                                               nasty=nasty, chains=chains, exotic_defvals=exotic_defvals, pysnmp_safe=pysnmp_safe)
     for be in backends:
         rec = make_rec_symtab()
         from pysmi.compiler import MibCompiler
@@ -147,3 +151,20 @@ def symreg_request(entry):
     names = Interner()
     return {'op': 'symreg', 'avail': [names(a) for a in entry['avail']],
             'decls': [[names(n), [names(p) for p in ps], [names(r) for r in rs]] for n, ps, rs in entry['events']]}, names
+
+
+def replay_regenerated(pid, inp, check, key=None):
+    """re-draws the module set of a recorded failure from its seed and asks the oracle again; `check(ctx, obs)`"""
+    import common
+
+    class C:
+        pass
+    kw = dict(inp['run_set'])
+    kw['backends'] = tuple(kw.get('backends') or ('json', 'pysnmp'))
+    obs = run_set(inp['seed'], **kw)
+    c = C()
+    c.res = common.Result(pid, 'quick', 0)
+    c.model, c.tier, c.defval_reqs, c.defval_metas = None, 'quick', None, None
+    check(c, obs)
+    fails = [f for f in c.res.oracle_failures if key in (None, f.get('key'))] or ([] if key else c.res.oracle_failures)
+    return {'fails': bool(fails), 'what': [f['what'][:200] for f in fails[:5]]}
